@@ -1,5 +1,5 @@
-(* C10 - failed calls change nothing (model level); the round-trip half is decided by the
-   correspondence/oracle path (FRoundtrip), no theorem yet.  Statements only. *)
+(* C10 - failed calls change nothing, and insert followed by delete is the identity (model level).
+   Statements only. *)
 From WF Require Import Base.Bytes Spec.Route Model.Tree Model.Parser Model.Router Proofs.RouterP.
 
 Theorem C10_failed_insert_changes_nothing :
@@ -19,3 +19,23 @@ Theorem C10_failed_delete_partial :
     r' = r \/ (e = DENotFound t /\ exists root, r' = Router root (r_constraints r)).
 Proof. exact rdelete_error_noop. Qed.
 Print Assumptions C10_failed_delete_partial.
+
+(* ---- for every router reachable by a history of operations ---- *)
+From WF Require Import Spec.Walk Proofs.InsRoutesP Proofs.ReachP Proofs.ReachOpsP.
+
+Theorem C10_failed_delete_changes_nothing :
+  forall b (ops : list op) t r' e, rdelete (run b ops) t = (r', RErr e) -> r' = run b ops.
+Proof. exact reach_delete_error_noop. Qed.
+Print Assumptions C10_failed_delete_changes_nothing.
+
+(* after a successful insert(t, d), delete(t) succeeds, returns d, and restores the set of stored routes with
+   their infos, the constraint table, and the result of every search *)
+Theorem C10_insert_then_delete_is_identity :
+  forall b (ops : list op) t d r1,
+    rinsert (run b ops) t d = (r1, ROk tt) ->
+    exists r2, rdelete r1 t = (r2, ROk d)
+      /\ r_constraints r2 = r_constraints (run b ops)
+      /\ (forall r0 i, RM (r_root r2) r0 i <-> RM (r_root (run b ops)) r0 i)
+      /\ (forall chk p, rsearch chk r2 p = rsearch chk (run b ops) p).
+Proof. exact reach_roundtrip. Qed.
+Print Assumptions C10_insert_then_delete_is_identity.
